@@ -1277,7 +1277,13 @@ pub fn group_files(config: &GroupConfig, log: &dyn Log) -> Result<Vec<FileGroup<
             if !ctx.config.skip_content_hash {
                 group_by_contents(&ctx, prefix_len, suffix_groups)
             } else {
+                // The suffix stage was the last one, so its groups are final and
+                // the replication filter must be applied to them strictly
+                // (intermediate stages let all groups pass when searching for under-replication)
                 suffix_groups
+                    .into_iter()
+                    .filter(|g| g.matches_strictly(&ctx.group_filter))
+                    .collect()
             }
         }
     };
